@@ -136,3 +136,14 @@ __CPROVER_decreases((uint64_t)nv_max_evals + 100000 - 2 * nv_ver_counter)
 #define NV_LOOP_lbfgs_do_minimize_3 __CPROVER_assigns(j) __CPROVER_loop_invariant(j <= hsize) __CPROVER_decreases(hsize - j)
 #define NV_CONTRACT_quasi_do_minimize NV_MINIMIZE_REQUIRES NV_MINIMIZE_ASSIGNS NV_MINIMIZE_ENSURES
 #define NV_LOOP_quasi_do_minimize_1 NV_SOLVER_LOOP(NV_COMMA first_iteration)
+
+/* solver_state_t::solver_state_t(function, x0): "a new state claims nothing": its status is max_iters (the default member
+ * initialiser `m_status{}` value-initialises to the FIRST enumerator, whose identity is read from /repo's AST), and the
+ * reported evaluation counts are copied from the function */
+#define NV_CONTRACT_state_ctor \
+__CPROVER_requires(__CPROVER_is_fresh(self, sizeof(*self)) && __CPROVER_is_fresh(function, sizeof(*function)) && NV_COUNTER_OK) \
+__CPROVER_assigns(*self, nv_ver_counter) \
+__CPROVER_ensures(self->m_status == NVE_solver_status_max_iters && self->m_status != NVE_solver_status_converged) \
+__CPROVER_ensures(self->m_fcalls >= 0 && (uint64_t)self->m_fcalls <= nv_ver_counter && self->m_function == function)
+static double nv_fn_vgrad(const struct nv_function* f) { nv_ver_counter = nv_ver_counter + 1; return nv_nondet_double(); }
+static void nv_state_update_constraints(struct nv_state* s) { s->cons_ver = s->ver; }
